@@ -118,7 +118,7 @@ impl PathBuf {
     pub fn to_str(&self) -> (r: Option<&Str>) ensures r is Some == self.utf8_ok(), r is Some ==> r->Some_0@ == self.pstr() { unimplemented!() }
     // R1: PathBuf::from(&str / String)
     #[verifier::external_body]
-    pub fn from_s(s: &Str) -> (r: PathBuf) ensures r.pstr() == s@, r.utf8_ok(), r.comps() == parse(s@) { unimplemented!() }
+    pub fn from_s<S: StrArg>(s: S) -> (r: PathBuf) ensures r.pstr() == s.sv(), r.utf8_ok(), r.comps() == parse(s.sv()) { unimplemented!() }
 }
 
 // ToStringExt for Component / OsStr: the string of a single component (RootDir is "/", CurDir ".", ParentDir "..", a name its characters)
